@@ -422,6 +422,10 @@ func runC05(c *core.Ctx, i int) {
 		}
 		return
 	}
+	if (i-ncell)%6 == 5 {
+		c05recursive(c, i)
+		return
+	}
 	c05random(c, i)
 }
 
@@ -430,7 +434,7 @@ func init() {
 		ID:        "C05",
 		Level:     "exploration",
 		Technique: "runtime monitoring: complete schema-form x Go-kind x position matrix decoded into a canary struct (byte-adjacent guard fields and padding filled with a pattern, verified after every decode), repeated under checkptr and ASan builds in child processes; deep read of the decoded field",
-		Rule: "every cell of {22 schema forms} x {48 Go kinds} x {direct, behind pointer, slice element, map value}, each built codec driven with in-range, boundary and out-of-range datums; plus random compatible (schema, target) pairs with one leaf kind replaced; " +
+		Rule: "every cell of {22 schema forms} x {48 Go kinds} x {direct, behind pointer, slice element, map value}, each built codec driven with in-range, boundary and out-of-range datums; plus random compatible (schema, target) pairs with one leaf kind replaced; plus self-containing Go types (tree, list, bag of bags, map of pointers to itself) under finite schemas nested 1-4 levels, decoded from reference-encoded records and compared level by level; " +
 			"distinct_nontrivial = distinct cells for which a decoder was built and run",
 		Explanation: "A build error is an accepted outcome. For a built decoder: every byte of the destination struct outside field F (align-1 guard arrays directly adjacent to F, padding, a sibling field not in the schema) must keep its pattern; the field must hold a valid value of its type (bool byte 0/1, slices/maps/strings/pointers fully readable); where the model covers the pairing the value must equal the expected conversion and out-of-range datums must be errors. checkptr sees conversions that straddle allocations, ASan sees stores past library-allocated memory (slice backing arrays, bank arenas, map value temporaries).",
 		Assumptions: []string{"ASan does not see intra-object overflow (that is what the canary bytes are for); checkptr does not see a store that stays inside one allocation"},
@@ -459,6 +463,9 @@ func init() {
 				if a.C("built.form."+f.name) < 1 {
 					u = append(u, "no decoder built for form "+f.name)
 				}
+			}
+			if a.C("recursive-type-records") < 1000 {
+				u = append(u, fmt.Sprintf("recursive-type-records=%d < 1000", a.C("recursive-type-records")))
 			}
 			if a.C("out-of-range-presented") < 100 {
 				u = append(u, fmt.Sprintf("out-of-range-presented=%d < 100", a.C("out-of-range-presented")))
